@@ -251,10 +251,25 @@ func cmdConc(args []string) int {
 			fmt.Printf("MONITOR %s finding=%q: %s\n", *prop, conc.DisposeFinding(dc, f.Msg), f.Msg)
 		}
 		fmt.Println("checks", run.Checks, "outstanding subscriptions", run.Subs)
+		rc := 0
+		if len(run.Lines) > 4 && len(run.Lines) == len(run.Obs) {
+			model, err := core.RunModel(*driver, []core.Case{{Lines: run.Lines}})
+			if err != nil {
+				fmt.Println(err)
+				return 2
+			}
+			for i := range run.Lines {
+				mark := " "
+				if !conc.MatchObs(run.Obs[i], model[0][i]) {
+					mark, rc = "!", 1
+				}
+				fmt.Printf("%s %-18s impl : %s\n                     model: %s\n", mark, run.Lines[i], run.Obs[i], model[0][i])
+			}
+		}
 		if len(run.Failures) > 0 {
 			return 1
 		}
-		return 0
+		return rc
 	}
 	if *replay != "" {
 		c, err := conc.LoadCase(*replay)
@@ -326,7 +341,34 @@ func cmdConc(args []string) int {
 		for _, f := range dfails {
 			res.Failures = append(res.Failures, core.FailRec{Prop: *prop, Finding: f.Finding, Msg: f.Msg, File: f.File})
 		}
-		res.Extra = map[string]any{"dispose_cases": dcases, "dispose_checks": dchecks}
+		// the scenarios that are schedules of the Lean disposal-protocol model: replayed there
+		protoLines := 0
+		if len(conc.Scripts) > 0 && !*search {
+			var mc []core.Case
+			for _, sc := range conc.Scripts {
+				mc = append(mc, core.Case{Lines: sc.Lines})
+			}
+			model, err := core.RunModel(*driver, mc)
+			if err != nil {
+				res.Disagreements = append(res.Disagreements, core.DisRec{Op: "driver", Model: err.Error()})
+			} else {
+				for i, sc := range conc.Scripts {
+					for j := range sc.Lines {
+						protoLines++
+						if !conc.MatchObs(sc.Obs[j], model[i][j]) {
+							file := filepath.Join(*out, fmt.Sprintf("%s-seed%d-proto%d.dcase", *prop, *seed, len(res.Disagreements)))
+							var b strings.Builder
+							b.WriteString("# disposal protocol: the real machine and the Lean model Am.DP disagree at `" + sc.Lines[j] + "`\n# impl : " + sc.Obs[j] + "\n# model: " + model[i][j] + "\n")
+							b.WriteString(strings.Join(sc.Case.Lines(), "\n") + "\n")
+							os.WriteFile(file, []byte(b.String()), 0o644)
+							res.Disagreements = append(res.Disagreements, core.DisRec{File: file, Line: j, Op: sc.Lines[j], Impl: sc.Obs[j], Model: model[i][j]})
+							break
+						}
+					}
+				}
+			}
+		}
+		res.Extra = map[string]any{"dispose_cases": dcases, "dispose_checks": dchecks, "protocol_scripts": len(conc.Scripts), "protocol_lines_compared": protoLines}
 		res.WallS = time.Since(t0).Seconds()
 	} else {
 		res = conc.RunPipeline(*prop, *seed, *tier, *driver, *out, *n, *search, dirs)
